@@ -20,7 +20,9 @@ import (
 // failure.  `!k~` = crash in the middle of the file write of the k-th step.  `@m:deq|retry:<ans>` = a step of
 // the background processor executed while the API call is parked in front of marker m (the processor
 // goroutine runs concurrently with every API call in production).  `@17:stop:<sid>:<cause>:<ans>` = a complete
-// StopSession call executed while an interim update (the interim goroutine) is parked in front of its send.
+// StopSession call executed while an interim update (the interim goroutine) is parked in front of its send;
+// `@1|2:stop:<sid>..` after `start <sid>` / `@3..6:stop:<sid>..` after `stop <sid>` = a StopSession of the same
+// session overlapping that call.
 
 type sink struct {
 	r    *rand.Rand
@@ -278,6 +280,33 @@ func exhaustiveInterimStop(s *sink) {
 	}
 }
 
+// API calls of the same session overlap (different goroutines of the caller): a StopSession arrives while the
+// session's StartSession is still sending / persisting, or while another StopSession is under way
+func exhaustiveOverlap(s *sink) {
+	ans := []string{"u", "d", "l"}
+	for _, a0 := range ans {
+		for _, as := range ans {
+			for _, m := range []int{1, 2} {
+				st := fmt.Sprintf("start s1 i1 %s @%d:stop:s1:1:%s", a0, m, as)
+				for _, next := range [][]string{nil, {"stop s1 2 u"}, {"stop s1 2 d"}, {"interim s1 u"}, {"deq u"}} {
+					main := append([]string{"new 3 8", st}, next...)
+					endings(main, 1, func(p []string, dead bool) { withTails(s, p, 1, dead, true) })
+				}
+			}
+			for _, m := range []int{3, 4, 5, 6} {
+				for _, pre := range [][]string{nil, {"interim s1 d"}} {
+					main := append([]string{"new 3 8", "start s1 i1 u"}, pre...)
+					main = append(main, fmt.Sprintf("stop s1 1 %s @%d:stop:s1:2:%s", a0, m, as))
+					endings(main, 1, func(p []string, dead bool) { withTails(s, p, 1, dead, true) })
+					for _, next := range []string{"stop s1 3 u", "retry u", "deq u"} {
+						endings(append(append([]string(nil), main...), next), 1, func(p []string, dead bool) { withTails(s, p, 1, dead, false) })
+					}
+				}
+			}
+		}
+	}
+}
+
 // interleavings of per-session chains
 func merges(chains [][]string, emit func([]string)) {
 	idx := make([]int, len(chains))
@@ -462,6 +491,9 @@ func randomSeq(r *rand.Rand) []string {
 			if r.Intn(5) == 0 { // the processor runs while the call is parked at one of its markers
 				ms := map[string][]int{"start": {1, 2}, "interim": {17}, "stop": {3, 4, 5, 6}, "shutdown": {9, 19}}[strings.Fields(op)[0]]
 				op += fmt.Sprintf(" @%d:%s:%s", ms[r.Intn(len(ms))], []string{"deq", "retry"}[r.Intn(2)], ans(1+r.Intn(2)))
+			} else if w := strings.Fields(op)[0]; (w == "start" || w == "stop") && r.Intn(6) == 0 { // an overlapping StopSession of the same session
+				ms := map[string][]int{"start": {1, 2}, "stop": {3, 4, 5, 6}}[w]
+				op += fmt.Sprintf(" @%d:stop:%s:%d:%s", ms[r.Intn(len(ms))], strings.Fields(op)[1], r.Intn(19), ans(1))
 			} else if strings.HasPrefix(op, "interim") && r.Intn(3) == 0 { // StopSession completes while the interim update is in flight
 				t := s
 				if r.Intn(4) == 0 {
@@ -497,6 +529,7 @@ func generate(r *rand.Rand, tier string, emit func([]string)) {
 		exhaustiveLost(s)
 		exhaustiveInject(s)
 		exhaustiveInterimStop(s)
+		exhaustiveOverlap(s)
 		exhaustive2(s)
 		exhaustive3(s)
 		counters(s, r, 4000)
@@ -515,6 +548,8 @@ func generate(r *rand.Rand, tier string, emit func([]string)) {
 	exhaustiveInject(s)
 	s.keep = 0.05
 	exhaustiveInterimStop(s)
+	s.keep = 0.03
+	exhaustiveOverlap(s)
 	s.keep = 0.005
 	exhaustive2(s)
 	s.keep = 0.02
@@ -533,6 +568,11 @@ var witnesses = [][]string{
 	{"new 3 8", "start s1 i1 u", "start s2 i2 u", "shutdown du @9:deq:u", "restart uu", "deq u", "retry -", "final"},
 	// the interim goroutine: StopSession completes while an interim update is in flight, then graceful restart
 	{"new 3 8", "start s1 i1 u", "ctr s1 5 6", "interim s1 u @17:stop:s1:1:u", "final", "shutdown -", "restart u", "final"},
+	// overlapping API calls of one session: StopSession during StartSession (before / after the Start is sent), two StopSessions
+	{"new 3 8", "start s1 i1 u @2:stop:s1:1:u", "final", "shutdown -", "restart u", "final"},
+	{"new 3 8", "start s1 i1 u @1:stop:s1:1:u", "stop s1 1 u", "final"},
+	{"new 3 8", "start s1 i1 u", "stop s1 1 u @5:stop:s1:2:u", "final"},
+	{"new 3 8", "start s1 i1 u", "stop s1 1 d @4:stop:s1:2:u", "deq u", "final"},
 	// C08-b: crash in the middle of the rewrite of an existing session file
 	{"new 3 8", "start s1 i1 u", "stop s1 1 u !1~", "restart u", "final"},
 	// C08-c: the server accepts the Stop, the reply is lost, the client sends it again
